@@ -2,7 +2,7 @@
    format_xyz_src, format_atomname_src and export_layout_src are regenerated from
    pdb2sql_base.py on every run (Generated_export.v). *)
 From Verif Require Import PyLib ModelTypes Generated_export Model_export Spec_parse Spec_export
-  Generated_parse Model_parse Proofs_digits Proofs_export Proofs_export2 Proofs_reparse Proofs_reread.
+  Generated_parse Model_parse Proofs_digits Proofs_export Proofs_export2 Proofs_reparse Proofs_reread Proofs_roundtrip.
 Open Scope Q_scope.
 
 (* a coordinate raises exactly outside (-1e7+0.5, 1e8-0.5); inside, it is the fixed-point
@@ -82,13 +82,29 @@ Theorem C02_occupancy_bfactor_reread : forall d line, fits d = true -> line_of_r
 Proof. exact occupancy_bfactor_reread. Qed.
 Print Assumptions C02_occupancy_bfactor_reread.
 
+(* THE ROUND TRIP, whole row: for every row that fits its field widths, whose text attributes are left alone by
+   str.strip() and whose chain identifier is not empty, the parser's model applied to the exported line returns
+   the row itself in serial, name, altLoc, resName, chainID, resSeq, iCode and element, and in x, y, z, occupancy
+   and B-factor the printed decimal (within half a unit of the printed precision / 0.005 of the written value by
+   the two theorems above) rounded once to binary64; the model number is the one current when the line is read *)
+Theorem C02_row_roundtrip : forall d line nmodel, fits d = true -> rereadable d -> line_of_row d = Ok line ->
+  parse_record nmodel line = Ok (reread_row d nmodel).
+Proof. exact row_roundtrip. Qed.
+Print Assumptions C02_row_roundtrip.
+
+(* the round trip is FALSE of the faithful model for a row whose chain identifier is the empty string (inside the
+   property's quantifier: "0-1 character chain"): the row fits, is exported with a blank column 22, and the parser
+   rejects that line (blank chain with blank segID raises, as C01 requires): known finding F24 *)
+Theorem C02_blank_chain_refuted : exists d line,
+  fits d = true /\ line_of_row d = Ok line /\ parse_record 0 line = Err "ValueError".
+Proof. exact blank_chain_not_rereadable. Qed.
+Print Assumptions C02_blank_chain_refuted.
+
 (* PARTIAL: the full statement also asks (a) "as many decimals as fit" for |x| >= 9999.5 in the form
    coord_ok (max_fit / near_power_of_ten; the interval table xyz_decimals above is its closed form, their
-   agreement is checked by the executable spec on every run, not proved), (b) the whole-row statement
-   parse_record 0 line = Ok d' /\ approx_row d d' = true, of which the numeric fields are the three theorems
-   above up to the final binary64 rounding b64 (relative error 2^-53, accounted for by Spec_export.slack in the
-   executable comparison, no theorem), the integer and text fields are C02_int/text_field_roundtrip (not yet
-   composed through parse_field's blank-field defaults), and (c) idempotence of a second export.
+   agreement is checked by the executable spec on every run, not proved), (b) the final step from C02_row_roundtrip to approx_row d d' = true: the binary64 rounding b64 of the re-read decimal
+   (relative error 2^-53, accounted for by Spec_export.slack in the executable comparison) has no error-bound
+   theorem yet, and (c) idempotence of a second export.
    (b) and (c) are decided on every run by the executable spec (line_ok / approx_row) applied to the
    implementation's output and by implementation = model on the same rows. *)
 
